@@ -129,6 +129,7 @@ theorem prog_safe (s : MState) (op : Op) (p : Prog Out) (hp : op.prog s = some p
   | refresh q => cases hp; exact safeH_run _ _ _ (refresh_safe {} plain_default _ _ _ _ hinv)
   | revoke q => cases hp; exact safeK_of_calm _ _ _ (calm_revokeProg q)
   | introspect q => cases hp; exact safeK_of_calm _ _ _ (calm_introspectProg _ _ q)
+  | introspectEndpoint q => cases hp; exact safeK_of_calm _ _ _ (calm_introspectEndpointProg _ _ q)
   | clientCredentials q => cases hp; exact safeK_of_calm _ _ _ (calm_clientCredentialsProg _ _ q)
   | password q => cases hp; exact safeH_run _ _ _ (password_safe {} plain_default _ _ _ _ hinv)
   | deviceAuthorize q => cases hp; exact safeK_of_calm _ _ _ (calm_deviceAuthProg _ _ q)
